@@ -12,8 +12,8 @@ import time
 HERE = os.path.dirname(os.path.abspath(__file__))
 if HERE not in sys.path:
     sys.path.insert(0, HERE)
-if "/repo" not in sys.path:
-    sys.path.insert(0, "/repo")
+if os.environ.get("VERIF_REPO", "/repo") not in sys.path:
+    sys.path.insert(0, os.environ.get("VERIF_REPO", "/repo"))
 
 from common import RtcResult  # noqa: E402
 
